@@ -12,917 +12,468 @@ Definition show_fres (r : fres) : string :=
   end.
 Definition check (rs : list rune) : string := digest (show_fres (format_res rs)).
 Definition full (rs : list rune) : string := show_fres (format_res rs).
-Eval vm_compute in ("<<<M3626>>>" ++ check (runes_of_ascii "root packet charz {
-    repeat o Packet,
-}
-
-packet float {
-    match crc as body {
-        ""\" ++ [233]%N ++ runes_of_ascii """ : f32a,
-        4294967296 : len,
-        [""// no comment""] : lengthOf,
-        65535 : i64_,
-        //x
-        //
-        4294967296 : Pad,
-    },
-    Logon,
-    float64 body @lengthOf(leftPad) `say ""hi""`,
-    match u8x as repeatCount {
-        // @lengthOf(
-        """ ++ [128512]%N ++ runes_of_ascii """ : i8i8,
-        ""\n"" : tag,
-        7 : pack,
-        """ ++ [28040; 24687]%N ++ runes_of_ascii """ : calculatedFrom,
-        /// triple
-        [0, ""it's""] : int,
-    },
-    char[0] stringy,
-    repeat float32 trueish `u8 x,`,
-    char[] T,
-}
-
-packet calculatedFrom {
-    matchKey matchKey,
-    @leftPad()
-    msg_type,
-    int16 BodyLength `" ++ [233]%N ++ runes_of_ascii "`,
-    char[255] packetx,
-    @calculatedFrom(""x y"")
-    match Packet as uint8x {
-        ""\n"" : repeatCount,
-        [65535] : leftPad,
-        ""\n"" : trueish,
-        [""" ++ [233]%N ++ runes_of_ascii "t" ++ [233]%N ++ runes_of_ascii """, 1, ""abc"", 10] : f32a,
-        // " ++ [27880; 37322]%N ++ runes_of_ascii "
-        [""// no comment""] : u,
-        // @lengthOf(
-        65535 : matchKey,
-    },
-    match _x as float {
-        ""x y"" : len,
-    },
-    char a1 @lengthOf(i64_),
-    _x @calculatedFrom(""\n"") `// not a comment`,
-    repeat calculatedFrom {
-        zchar[1] Foo,
-        char[7] options1 `tab	here`,//
-        match chars as A {
-            4294967296 : string_,
-        },
-        u8x @calculatedFrom(""`tick`""),
-    },
-}
-
-packet calculatedFrom {
-    @lengthOf(tag)
-    @leftPad('\x00')
-    @rightPad('0')
-    char[0123456789] u128,
-    rootA {
-        zchar[4294967296] _x @lengthOf(metadata),
-    },
-    Header u,
-    @calculatedFrom(""it's"")
-    // @lengthOf(
-    // trailing space 
-    Pad @calculatedFrom(""abc""),
-    @lengthOf(u)
-    @lengthOf(len)
-    @rightPad()
-    // trailing space 
-    int64 uint8x `// not a comment`,
-}
-
-root packet roots {
-    u @lengthOf(i8i8),
-    @calculatedFrom(""\" ++ [233]%N ++ runes_of_ascii """)
-    BodyLength Logon,
-    uint16 body @lengthOf(f32a) `a\`,
-    int16 zchar,
-    @calculatedFrom(""a	b"")
-    u32 u128 `
-        `,
-    Pad T `
-        `,
-}")).
-Eval vm_compute in ("<<<M3883>>>" ++ check (runes_of_ascii "// @lengthOf(
-MetaData zchar {
-    string o `crlf
-    line`,
-    char[] pack `crlf
-    line`,
-    char[] Foo,
-}
-
-options {
-    stringy = ""`tick`""
-}
-
-packet leftPad {
-    packetx @lengthOf(roots),
-    @lengthOf(int)
-    @calculatedFrom(""a\""b"")
-    @calculatedFrom(""" ++ [28040; 24687]%N ++ runes_of_ascii """)
-    int32 MetaDataX `" ++ [233]%N ++ runes_of_ascii "`,
-    u8 int,
-    @lengthOf(options1)
-    repeat u8 BodyLength,
-    @tag(1)
-    Logon,
-    repeat int32 u8x `say ""hi""`,
-    match int as charz {
-        ""abc"" : roots,
-    },
-    string_ {
-        zchar @lengthOf(calculatedFrom) ``,
-    },
-}
-
-root packet lengthOf {
-    @tag(4294967296)
-    A @lengthOf(i64_) `doc`,
-    body @lengthOf(lengthOf) `it's`,
-    zchar[10] i8i8,
-    @calculatedFrom(""" ++ [233]%N ++ runes_of_ascii "t" ++ [233]%N ++ runes_of_ascii """)
-    i64 int `u8 x,`,
-    repeat trueish {
-        string options1,
-        zchar[0123456789] _x `tab	here`,
-        Pad {
-            repeat string repeatCount,
-            repeat string _x,
-            Packet @lengthOf(roots) `
-            `,
-            string crc @calculatedFrom(""abc""),
-        },
-        match i8i8 as string_ {
-            // c
-            [""it's""] : options1,
-            //
-            // @lengthOf(
-            ""a	b"" : string_,
-            [""a	b"", 00] : metadata,
-            0 : o,
-            ""\" ++ [233]%N ++ runes_of_ascii """ : Pad,
-        },
-    },
-    char[7] i8i8 `tab	here`,
-    roots {
-        repeat uint8 _x `tab	here`,
-    },
-    repeat int64 f32a,
-    match asx as calculatedFrom {
-        65535 : asx,
-        [1] : uint8x,
-        42 : x,
-        [
-            ""x y"", ""1"", ""`tick`"", ""1"", ""1"",
-            ""a	b""
-        ] : MetaDataX,
-    },
-}
-
-MetaData chars {
-}")).
-Eval vm_compute in ("<<<M3795>>>" ++ check (runes_of_ascii "
-
-  /// triple
-    MetaData	Logon
-
-    {  i16
-body ,
-
-} /// triple
-  root
-
-packet
-    Z9_ {
-    _x
-    // packet A { u8 x, }
-  // " ++ [128512]%N ++ runes_of_ascii " emoji
-		{ Foo{
-matchKey  { 
-repeat leftPad
-    body
-, u128
-    MetaDataX  ,match
-uint8x as
-	BodyLength{ ""abc""
-	:
-
-    int ,
-
-[
-    42, 10 ]
-	:Z9_
-
-,
-
-    1 
-: 	 // a // b
-		i64_ 
-0123456789
-
-: u
-	,
-""a\""b"":chars 
-, } 
-,
-
-    repeat  //	t
-int32 
-
-    //x
-
-	//	t
-packetx
-
-, 
-}
-,
-match zchar as
-	u128 
-// @lengthOf(
-	{007  //x
-  :
-msg_type
-""a\\""
-    :	asx ,
-""""  :	T ,007 
-:charz
-,  ""abc"" 
-: 
-/// triple
-		matchKey,
-""x y"" :
-
-string_
-, } ,
-
-    repeat
-
-    zchar[  0123456789]// trailing space 
-msg_type
-`doc` 
-,} ,
-    match
-Z9_
-
-as
-    MetaDataX{[
-0 
-,
-
-    ""1""
-]
-
-: 
-
-    // packet A { u8 x, }
-  uint8x [	65535
-, 
-    //
-  //	t
-  """"
-]	: x_y_z, ""x y""	:
-falsey ,
-65535 :packetx	, ""// no comment""
-
-    :
-
-    falsey[ 4294967296 ,
-	""a\""b""
-
-    ,	""\n"" , 
-""a\""b""
-,
-
-    255	]
-:charz
-
-,  }  // @lengthOf(
-,
-} 
-,
-
-chars
-    int `u8 x,`,
-
-    @tag(	65535 ) char[]Header `{ , }`
-,
-@tag(
-255
-)match
-repeatCount
-as
-
-    A
-{[
-
-4294967296 ,	""\" ++ [233]%N ++ runes_of_ascii """	,
-    ""packet""
-,  // packet A { u8 x, }
-	42
-
-    , 007  ,""" ++ [128512]%N ++ runes_of_ascii """,
-	""a\""b"" 
-] // c
-  : lengthOf ,""// no comment""	:
-a1
-    ,""\n""  :	MetaDataX  //x
-    	3// a // b
-: 
-        // @lengthOf(
-
-// packet A { u8 x, }
-
-body  , }
-,
-}")).
-Eval vm_compute in ("<<<M681>>>" ++ check (runes_of_ascii "options {	charz ='\x00'
-string_ = true
-    ; Z9_ = false ; repeatCount	= 7
-; stringy =true }
-MetaData
-lengthOf{ zchar[10
-    ] //x
-uint8x , string u`line1
-line2` , int8
-matchKey
-`two words`
-    ,falsey //
-Z9_
-, packetx pack , u8x x_y_z`line1
-line2` , } packet len //	t
-{ char[] Z9_
-    @calculatedFrom(""""
-    ), zchar[
-    4294967296 ]len `{ , }`,
-// @lengthOf(
-// c
-i32 msg_type `two words`
-    ,@lengthOf( A
-    )	roots `two words` , match Foo as T
-{0 : //x
-rootA
-,255 : packetx 0123456789 :  body /// triple
-, ""abc""
-:
-_x 007:
-As ,""abc""
-    :
-    A, // `tick` ""quote"" 'q'
-} ,body { Pad
-,
-char[]
-    body
-@lengthOf( rootA
-    ),	}
-,	match packetx as i64_{ ""x y"" : options1 // " ++ [27880; 37322]%N ++ runes_of_ascii "
-,
-    ""x y"" : _x , } ,
-@calculatedFrom( ""CRC32"") match options1 // @lengthOf(
-as
-a1{	1 : Z9_ , [
-7 ] :
-// " ++ [27880; 37322]%N ++ runes_of_ascii "
-// trailing space 
-crc,	0 : u
-    //x
-    ,
-    [ ""\n""
-    , ""abc""] :
-    repeatCount [
-    ""\n"" , 0 , 42, ""{,}""
-]:
-x_y_z ,
-    } ,@rightPad ( '\x00'
-    ) repeat i32 MetaDataX `" ++ [233]%N ++ runes_of_ascii "`  , @rightPad
-    (
-    '0' ) matchKey MetaDataX `` , } // " ++ [128512]%N ++ runes_of_ascii " emoji
-packet
-    string_
-{	rootA
-{ repeat
-    lengthOf MetaDataX
-    , string_ @calculatedFrom( ""it's"" ),repeat	float32 msg_type `say ""hi""`
-    // @lengthOf(
-    , f32 metadata ,
-    } , repeat uint32 u `a\` ,	}
-")).
-Eval vm_compute in ("<<<M478>>>" ++ check (runes_of_ascii "packet	leftPad {
-    } root	packet u128 { char[0 ] body @lengthOf(int)//	t
-`two words` , @lengthOf(
-// c
-// `tick` ""quote"" 'q'
-body )// @lengthOf(
-Pad { float
-    @lengthOf( crc), zchar[ 255 ]roots `tab	here`/// triple
-,
-    }
-,float64 stringy `tab	here` ,
-    u x ,
-float32 _x	``,x_y_z// c
-@lengthOf(matchKey
-)
-    `it's` , @leftPad
-    // trailing space 
-    ( '0' ) char[ 65535
-    ]
-pack `// not a comment`,
-char
-repeatCount , u8x , charz `" ++ [233]%N ++ runes_of_ascii "` ,
-}packet
-metadata { zchar[
-3 ] As
-    @calculatedFrom(
-/// triple
-// @lengthOf(
-""x y"" )
-, @leftPad (
-' ') // trailing space 
-matchKey`two words` , // packet A { u8 x, }
-@tag(  3 // packet A { u8 x, }
-) BodyLength
-    { match zchar as int {
-    ""a	b"" :int } // `tick` ""quote"" 'q'
-, } , @tag( 7 ) // packet A { u8 x, }
-match	x
-as
-    A	{ //
-10 : metadata ,
-} , zchar[ //x
-3 ] chars ,}
-    root
-// `tick` ""quote"" 'q'
-// a // b
-packet u128{ char[]
-    Z9_
-    @calculatedFrom( ""a\\""// a // b
-)
-, repeat string lengthOf , string tag, u32 a1 /// triple
-`it's`
-    , }
-packet charz//
-{repeat
-chars
-, @leftPad ( '\x00')
-    u16//
-u
-`two words` , match
-    BodyLength as
-_x {
-7 :
-    zchar ,}  ,
-}")).
-Eval vm_compute in ("<<<M3695>>>" ++ check (runes_of_ascii "
-packet  int  // " ++ [128512]%N ++ runes_of_ascii " emoji
-  {@tag(
-
-    7) BodyLength {// @lengthOf(
-    	float32
-    f32a
-
-, char[	255 ] u8x@lengthOf(
-
-Z9_)`line1
-line2` 
-,
-
-repeat 
-char[  65535] 
-
-// `tick` ""quote"" 'q'
-  // a // b
-  	tag
-    `" ++ [233]%N ++ runes_of_ascii "` 
-,
-match
-
-    Header//x
-		as
-    int
-
-{
-
-""" ++ [128512]%N ++ runes_of_ascii """
-	// trailing space 
-	//	t
-	: //	t
-  	body
-,
-    [ 
-""" ++ [233]%N ++ runes_of_ascii "t" ++ [233]%N ++ runes_of_ascii """ ,
-""" ++ [128512]%N ++ runes_of_ascii """, ""packet"" ,
-	00, 4294967296 ,
-
-    255 ]
-
-    :int  [ 0  , ""a	b""
-	]
-
-    :
-Z9_, [  65535 	 // " ++ [128512]%N ++ runes_of_ascii " emoji
-      ] : tag 
-,  /// triple
-	""" ++ [233]%N ++ runes_of_ascii "t" ++ [233]%N ++ runes_of_ascii """  :  
-  // `tick` ""quote"" 'q'
-	options1 
-      //
-
-//x
-
-  }
-,
-}
-    , zchar[255
-	] 
-MetaDataX
-
-    @lengthOf( Z9_ )	`crlf
-line`
-, stringy 
-    /// triple
-    // @lengthOf(
-  	{
-
-    repeat
-    string 
-A , 	 // packet A { u8 x, }
-
-  crc
-
-    {
-	zchar[
-	1
-	]
-
-// c
-	uint8x
-
-, }
-
-,  uint16	Packet @calculatedFrom(	""a	b"" )
-,	len
-
-    @calculatedFrom(
-""a	b"" ) 
-`two words`,
-
-} ,zchar[ 
-255 ]
-As `` , i16// `tick` ""quote"" 'q'
-    	calculatedFrom ,
-@tag(
-	42  // `tick` ""quote"" 'q'
-	)
-    repeat
-
-    x_y_z
-	`two words`
-
-// " ++ [128512]%N ++ runes_of_ascii " emoji
-
-  ,
-
-    uint8
-lengthOf
-    ,
-@tag(
-0) u128,
-} ")).
-Eval vm_compute in ("<<<M3727>>>" ++ check (runes_of_ascii "//	t
-MetaData i8i8 {
-    char packetx `
-        `,// c
-    char[] Header `" ++ [233]%N ++ runes_of_ascii "`,
-    u32 options1,
-    Header i8i8 `two words`,
-}
-
-root packet Header {
-    match falsey as pack {
-        // c
-        ""CRC32"" : crc,
-    },
-    o rootA,
-    match rootA as u {
-        [255, ""\n""] : metadata,
-        42 : uint8x,
-        [""" ++ [128512]%N ++ runes_of_ascii """] : float,
-        // " ++ [128512]%N ++ runes_of_ascii " emoji
-        ""\n"" : u,
-        3 : MetaDataX,
-    },
-    @leftPad('\x00')
-    float64 Packet @calculatedFrom(""abc"") `say ""hi""`,
-    repeat u8x,
-    @lengthOf(msg_type)
-    uint8x {
-        packetx repeatCount,
-        asx @calculatedFrom(""x y""),
-        zchar[007] u `say ""hi""`,
-    },
-    repeat i16 calculatedFrom `
-        `,
-    int16 T @calculatedFrom(""a	b""),
-    @rightPad()
-    char[00] Foo @lengthOf(pack) `tab	here`,
-    uint8x `" ++ [28040; 24687; 31867; 22411]%N ++ runes_of_ascii "`,
-}
-
-options {
-    x_y_z = 255;
-    metadata = ""CRC32"";
-    leftPad = ""{,}"";
-    u128 = true
-    tag = string;
-    // " ++ [128512]%N ++ runes_of_ascii " emoji
-    // a // b
-}
-
-root packet x_y_z {
-    @lengthOf(body)
-    int32 Z9_ @calculatedFrom(""{,}"") `" ++ [28040; 24687; 31867; 22411]%N ++ runes_of_ascii "`,
-}")).
-Eval vm_compute in ("<<<M4388>>>" ++ check (runes_of_ascii "packet a1 {
-    chars {
-        len {
-            Logon len,
-            string string_,
-            u8x @calculatedFrom(""a\\""),
-            repeat float {
-                body int `" ++ [233]%N ++ runes_of_ascii "`,
-            },
-        },
-        repeat As {
-            repeat i64_ f32a `{ , }`,
-            A @calculatedFrom(""\" ++ [233]%N ++ runes_of_ascii """),
-            int64 float,
-        },
-        match x as chars {
-            [
-                """ ++ [128512]%N ++ runes_of_ascii """, 007, ""x y"", 00, ""x y"",
-                10
-            ] : string_,
-            10 : float,
-            4294967296 : x_y_z,
-            [
-                """ ++ [233]%N ++ runes_of_ascii "t" ++ [233]%N ++ runes_of_ascii """, 10, 42, """ ++ [28040; 24687]%N ++ runes_of_ascii """, 0123456789,
-                42, 10
-            ] : T,
-            00 : leftPad,
-        },
-        crc @lengthOf(u128),
-    },
-    char[] packetx @calculatedFrom(""abc"") `line1
-    line2`,
-    int32 repeatCount @lengthOf(Foo) `it's`,
-    match Packet as string_ {
-        42 : f32a,
-        255 : MetaDataX,
-        1 : i8i8,
-        """" : a1,
-        //	t
-    },
-    _x @lengthOf(chars),
-}")).
-Eval vm_compute in ("<<<M810>>>" ++ check (runes_of_ascii "root
-    packet
-    asx // trailing space 
-{
-    trueish lengthOf
-`line1
-line2`
-,	@rightPad (	)
-@rightPad(  '0') char[] a1 , } packet metadata {
-stringy `say ""hi""` , @lengthOf(
-int ) match u8x as
-    zchar {
-""" ++ [128512]%N ++ runes_of_ascii """ : repeatCount ,00
-: Header
-, 4294967296 : As ,
-    //	t
-    255
-:
-    //x
-    u8x
-,
-[ //	t
-0123456789 ]
-    :
-    // packet A { u8 x, }
-    pack// `tick` ""quote"" 'q'
-, } ,
-@calculatedFrom( """ ++ [233]%N ++ runes_of_ascii "t" ++ [233]%N ++ runes_of_ascii """ ) repeat x_y_z{ u16 len `say ""hi""`,} , @tag( 007 )@leftPad (
-    '0' // @lengthOf(
-)
-    match
-options1 as float {
-[""CRC32"" , ""CRC32""	]: x_y_z
-,0:
-    tag 255:
-    Logon , //	t
-42 : string_
-    } // c
-,	repeat zchar[ 007 ]u
-    ,  T {//x
-char[] asx ,
-    match trueish
-as A{ ""1""
-: tag , [  ""{,}""  , 7 ]:
-    Logon
-    , 4294967296 :
-    calculatedFrom ,""it's"" : uint8x, }, }	,@leftPad
-    ( )
-match x_y_z as
-Packet { [ """ ++ [28040; 24687]%N ++ runes_of_ascii """	,
-4294967296
-] :int	,
-    } , char[]
-int  @calculatedFrom( ""\" ++ [233]%N ++ runes_of_ascii """	) //	t
-`" ++ [233]%N ++ runes_of_ascii "`, }")).
-Eval vm_compute in ("<<<M1029>>>" ++ check (runes_of_ascii "packet
-T  { }
-    root packet BodyLength{ match falsey
-as MetaDataX {
-[ 4294967296 ]	: _x ,// @lengthOf(
-00: options1 [
-    007  , // `tick` ""quote"" 'q'
-65535 , ""CRC32"" // " ++ [128512]%N ++ runes_of_ascii " emoji
-] : i64_ ,
-} , @leftPad
-()
-    metadata `doc` //x
-,
-Z9_ { repeat  float32	lengthOf
-, packetx { uint16  zchar@calculatedFrom(""" ++ [28040; 24687]%N ++ runes_of_ascii """) ,
-}
-,
-} , @tag(
-7) uint32
-    metadata@calculatedFrom( ""{,}""
-) , char[  65535 ]string_ `a\`
-,	}packet zchar
-{trueish
-    `crlf
-line`
-    ,	@tag(00 ) float Pad// c
-, int16 //x
-options1 @calculatedFrom( ""a\\"" )	, @calculatedFrom( ""x y""
-)  @lengthOf(string_ )metadata @calculatedFrom( ""`tick`""
-)`crlf
-line` , crc
-    // trailing space 
-    packetx `crlf
-line` ,	metadata
-// a // b
-// a // b
-packetx`// not a comment`
-, i8 u128
-    //	t
-    @lengthOf(	int ) , //	t
-@rightPad
-    (' '
-)Header @lengthOf( leftPad ) `doc` ,i8i8 Header``
-    , }")).
-Eval vm_compute in ("<<<M164>>>" ++ check (runes_of_ascii "packet
-    Logon
-{
-    repeat	char
-MetaDataX `say ""hi""`,
-@lengthOf(
-packetx) char[] repeatCount// `tick` ""quote"" 'q'
-`doc` , @leftPad (
-    '0' )@tag(
-7 ) Header@calculatedFrom(
-    """" // " ++ [128512]%N ++ runes_of_ascii " emoji
-)	,
-@lengthOf(
-    /// triple
-    MetaDataX
-) match // trailing space 
+Eval vm_compute in ("<<<M89>>>" ++ check (runes_of_ascii "packet
 x
-//
-// trailing space 
-as Header
-// trailing space 
-//	t
-{ ""x y"" : u8x // trailing space 
-,
-""" ++ [128512]%N ++ runes_of_ascii """
-: /// triple
-charz , """ ++ [233]%N ++ runes_of_ascii "t" ++ [233]%N ++ runes_of_ascii """
-:// packet A { u8 x, }
-_x,[ 3 , // " ++ [27880; 37322]%N ++ runes_of_ascii "
-00
-    ] :  uint8x , ""it's"" //	t
-:// `tick` ""quote"" 'q'
-rootA[
-    00
-    ,  65535//x
-] :
-    zchar }
-    ,@calculatedFrom( ""// no comment"" )int32 i64_,
-repeat// " ++ [128512]%N ++ runes_of_ascii " emoji
-body {zchar[
-    10  ]
-BodyLength `line1
-line2` , lengthOf Logon
-, // @lengthOf(
-repeat
-    float64	i8i8 ,char[0123456789]leftPad // `tick` ""quote"" 'q'
-`
-` ,	}
-    ,  repeat char[ 255
-    //
-    ] a1`" ++ [28040; 24687; 31867; 22411]%N ++ runes_of_ascii "`, } 	 ")).
-Eval vm_compute in ("<<<M130>>>" ++ check (runes_of_ascii "
-packet
-    o {// trailing space 
-body {
-string options1@lengthOf(int ) ,
-    // " ++ [27880; 37322]%N ++ runes_of_ascii "
-    repeat u
-{ match  tag
-    as
-BodyLength { [	""" ++ [128512]%N ++ runes_of_ascii """
-, /// triple
-""`tick`"" ,
-    // @lengthOf(
-    ""packet"" ,
-""a\\"" ,65535
-, 0123456789 // trailing space 
-]: u
-// `tick` ""quote"" 'q'
-// c
-""a\\"" : rootA ,
-    """ ++ [128512]%N ++ runes_of_ascii """: Foo 3
-:  uint8x ,	} , match leftPad as // `tick` ""quote"" 'q'
-a1
-    {1 : //	t
-Header
-,
-}
-, },
-    }
-,
-    chars , repeatCount body
-//	t
-// " ++ [128512]%N ++ runes_of_ascii " emoji
-`a\` ,}	packet metadata {
-@rightPad ('0' // " ++ [27880; 37322]%N ++ runes_of_ascii "
-)
-@leftPad
-( //x
-'0' ) @calculatedFrom( ""packet"") match o as	Logon{ """"
-: A, [
-    007// c
-, 7  , 1
-, """"// trailing space 
-,  42, ""a	b""]  :	A	""it's"" :
-    _x,  },@lengthOf(//x
-Header
-)char[  3 ] i8i8@lengthOf( int )	,char[]Packet @calculatedFrom( ""a	b"")
-, leftPad ,
-    }packet charz { }")).
-Eval vm_compute in ("<<<M886>>>" ++ check (runes_of_ascii "// `tick` ""quote"" 'q'
-root
-packet // " ++ [27880; 37322]%N ++ runes_of_ascii "
-MetaDataX {	zchar[ 10 ] len`// not a comment`
-, // " ++ [128512]%N ++ runes_of_ascii " emoji
-repeat matchKey
-    // " ++ [128512]%N ++ runes_of_ascii " emoji
-    { u // a // b
-falsey `tab	here`  ,	}, @tag(0123456789 ) string u8x ,
-zchar[ 3 ]
-    msg_type @lengthOf(
-As ) , @rightPad // `tick` ""quote"" 'q'
-( ) char	Packet , @rightPad (	)f64 u
     // `tick` ""quote"" 'q'
-    , @lengthOf( uint8x ) @lengthOf(
-    x_y_z )
-@lengthOf(float ) Logon@lengthOf(pack	)
-`a\`  ,@lengthOf( Logon ) char[]
+    { len// c
+{// " ++ [27880; 37322]%N ++ runes_of_ascii "
+repeat
+i32	crc `say ""hi""` , match
+    chars as Packet
+{ 0123456789//	t
+: Pad 0123456789 :
+falsey
+    // " ++ [27880; 37322]%N ++ runes_of_ascii "
+    [
+4294967296
+    , 3
+    ,
+4294967296 , 0, ""1"" ] :roots,
+""a\\""
+:
+_x 3
+    : packetx } , repeat string
+    stringy `tab	here`
+,  match roots as lengthOf{
+""abc"" //	t
+:
+packetx , } // packet A { u8 x, }
+, } ,@lengthOf( chars )match  rootA
+    // trailing space 
+    as roots{
+""\n"" //
+:
+    Packet ,} , // `tick` ""quote"" 'q'
+string As `" ++ [28040; 24687; 31867; 22411]%N ++ runes_of_ascii "` , @rightPad (
+'\x00' ) int64 trueish @lengthOf( lengthOf )  `" ++ [233]%N ++ runes_of_ascii "` , } packet	len {	} options
+    {a1
+    // packet A { u8 x, }
+    = false
     // a // b
-    rootA
-@calculatedFrom( // " ++ [128512]%N ++ runes_of_ascii " emoji
-""1"" ) ,
-int64
-    stringy @lengthOf( zchar)`{ , }`,
-match
-// a // b
+    }packet Z9_{ repeat zchar[ 00
+]  options1
+    //x
+    ,	@lengthOf( falsey ) repeat//	t
+i8 options1 `two words`
+, @rightPad//
+() i8 msg_type, char[3]
+lengthOf `{ , }`	,  string _x,@leftPad (
+) // c
+uint16	chars,
+// @lengthOf(
+//
+@lengthOf(
+crc
+    )@leftPad
+    (
+    // " ++ [128512]%N ++ runes_of_ascii " emoji
+    '0' ) repeat
+stringy calculatedFrom , string
 // " ++ [27880; 37322]%N ++ runes_of_ascii "
-string_ as As { 7 :
-metadata
-""x y""// " ++ [128512]%N ++ runes_of_ascii " emoji
-: packetx ,""" ++ [233]%N ++ runes_of_ascii "t" ++ [233]%N ++ runes_of_ascii """  : repeatCount ,
-} ,
-    // @lengthOf(
-    }	root packet matchKey { } packet charz
-{  }
+//
+int `line1
+line2`, @rightPad
+( ' '
+    ) match Foo as
+    rootA //x
+{ [ ""packet"", ""a\""b"", """ ++ [128512]%N ++ runes_of_ascii """
+    ,""""	,
+    42 ] : u
+// a // b
+// packet A { u8 x, }
+,
+0 // " ++ [27880; 37322]%N ++ runes_of_ascii "
+:	A
+    , // trailing space 
+00
+:
+asx
+//x
+// trailing space 
+0 :  x_y_z
+    ,
+""CRC32"" : i64_
+, 42 : x
+// c
+// " ++ [128512]%N ++ runes_of_ascii " emoji
+, } , roots{ repeat zchar[10 ] stringy `" ++ [28040; 24687; 31867; 22411]%N ++ runes_of_ascii "` ,	} , } MetaData
+    // `tick` ""quote"" 'q'
+    tag{ f32 tag
+    ``, }
 ")).
+Eval vm_compute in ("<<<M118>>>" ++ check (runes_of_ascii "
+packet // c
+zchar { i8 uint8x//
+`a\`,
+    match
+leftPad as matchKey
+// a // b
+// @lengthOf(
+{  007
+    :f32a  ,
+7// " ++ [27880; 37322]%N ++ runes_of_ascii "
+: // " ++ [128512]%N ++ runes_of_ascii " emoji
+falsey ,3
+:_x	, [ ""1"" ] : u8x ,
+    //	t
+    ""it's""
+: i8i8 ,
+    10 :pack , } , repeat string
+rootA`say ""hi""`, repeat
+int32 repeatCount `" ++ [233]%N ++ runes_of_ascii "` , @lengthOf( calculatedFrom)
+zchar[// @lengthOf(
+4294967296 ]
+// @lengthOf(
+// packet A { u8 x, }
+T ,
+    @tag(
+4294967296 )
+crc @calculatedFrom( // packet A { u8 x, }
+"""" )
+, @calculatedFrom(""abc"")u8x	@lengthOf( o) `crlf
+line`, }packet
+//
+// c
+T { i64 repeatCount ,
+    calculatedFrom pack
+,
+@calculatedFrom( ""`tick`"" // packet A { u8 x, }
+)
+    f32a Foo
+, match body as string_ {  ""packet"":	uint8x // " ++ [128512]%N ++ runes_of_ascii " emoji
+,// @lengthOf(
+""" ++ [128512]%N ++ runes_of_ascii """ /// triple
+: body, 007	:
+Logon, ""it's"" // a // b
+:leftPad
+    ,
+[ ""x y"" ,
+255 , ""\" ++ [233]%N ++ runes_of_ascii """,
+1 //
+, 0123456789]: options1 ,} , @rightPad ( '\x00'	)
+    // packet A { u8 x, }
+    match
+//	t
+// @lengthOf(
+As as
+    roots { 4294967296 :len """ ++ [28040; 24687]%N ++ runes_of_ascii """ :msg_type
+, } ,
+    f32 chars ,
+// `tick` ""quote"" 'q'
+// @lengthOf(
+repeat calculatedFrom , @calculatedFrom( ""x y"" ) f32
+roots
+// `tick` ""quote"" 'q'
+//x
+`{ , }` , } root packet calculatedFrom{ }
+")).
+Eval vm_compute in ("<<<M1123>>>" ++ check (runes_of_ascii "// top
+root
+    // c0
+packet
+    // c1
+msg_type
+    // c2
+{
+    // c3
+i64
+    // c4
+options1
+    // c5
+,
+    // c6
+@lengthOf(
+    // c7
+f32a
+    // c8
+)
+    // c9
+repeat
+    // c10
+uint16
+    // c11
+Foo
+    // c12
+,
+    // c13
+@calculatedFrom(
+    // c14
+""x y""
+    // c15
+)
+    // c16
+repeat
+    // c17
+int64
+    // c18
+pack
+    // c19
+,
+    // c20
+@leftPad
+    // c21
+(
+    // c22
+' '
+    // c23
+)
+    // c24
+uint8
+    // c25
+Foo
+    // c26
+,
+    // c27
+}
+    // c28
+packet
+    // c29
+rootA
+    // c30
+{
+    // c31
+f32a
+    // c32
+x
+    // c33
+`two words`
+    // c34
+,
+    // c35
+char
+    // c36
+asx
+    // c37
+@lengthOf(
+    // c38
+falsey
+    // c39
+)
+    // c40
+`u8 x,`
+    // c41
+,
+    // c42
+@lengthOf(
+    // c43
+i64_
+    // c44
+)
+    // c45
+uint16
+    // c46
+chars
+    // c47
+,
+    // c48
+@tag(
+    // c49
+0
+    // c50
+)
+    // c51
+string
+    // c52
+_x
+    // c53
+@calculatedFrom(
+    // c54
+""abc""
+    // c55
+)
+    // c56
+`// not a comment`
+    // c57
+,
+    // c58
+}
+    // c59
+")).
+Eval vm_compute in ("<<<M1178>>>" ++ check (runes_of_ascii "// top
+options
+    // c0
+{
+    // c1
+chars
+    // c2
+=
+    // c3
+""a\\""
+    // c4
+}
+    // c5
+packet
+    // c6
+Z9_
+    // c7
+{
+    // c8
+match
+    // c9
+BodyLength
+    // c10
+as
+    // c11
+roots
+    // c12
+{
+    // c13
+""" ++ [28040; 24687]%N ++ runes_of_ascii """
+    // c14
+:
+    // c15
+falsey
+    // c16
+,
+    // c17
+00
+    // c18
+:
+    // c19
+u128
+    // c20
+0
+    // c21
+:
+    // c22
+len
+    // c23
+,
+    // c24
+007
+    // c25
+:
+    // c26
+f32a
+    // c27
+}
+    // c28
+,
+    // c29
+@tag(
+    // c30
+3
+    // c31
+)
+    // c32
+@calculatedFrom(
+    // c33
+""`tick`""
+    // c34
+)
+    // c35
+@leftPad
+    // c36
+(
+    // c37
+' '
+    // c38
+)
+    // c39
+string
+    // c40
+asx
+    // c41
+,
+    // c42
+string
+    // c43
+u
+    // c44
+@lengthOf(
+    // c45
+options1
+    // c46
+)
+    // c47
+,
+    // c48
+float32
+    // c49
+i64_
+    // c50
+@calculatedFrom(
+    // c51
+""a\""b""
+    // c52
+)
+    // c53
+,
+    // c54
+}
+    // c55
+")).
+Eval vm_compute in ("<<<M1881>>>" ++ check (runes_of_ascii "  packet
+
+    A 
+{ repeat o	Z9_,@calculatedFrom( """ ++ [233]%N ++ runes_of_ascii "t" ++ [233]%N ++ runes_of_ascii """  )
+    @calculatedFrom(	""a\\"" 
+)
+@tag( 42
+	)
+
+match
+
+    Header
+
+    as  
+      // packet A { u8 x, }
+
+  tag
+	{	""`tick`"" 
+:	As
+    ,
+	[
+""\" ++ [233]%N ++ runes_of_ascii """
+    ]	:asx [  3,
+
+""1"" ,  ""\n""	,
+
+    007,
+	""\n""  ] 
+:  options1	""abc""
+    : 
+    //	t
+	/// triple
+  falsey
+    ,
+    4294967296
+
+    : metadata 
+,	}
+
+    , @tag(  4294967296
+
+    )
+tag
+    @calculatedFrom(  """ ++ [128512]%N ++ runes_of_ascii """
+),  }
+        // `tick` ""quote"" 'q'
+    	packet stringy
+
+    { 
+char[]packetx	`
+`
+,string
+	leftPad  @lengthOf( float
+)
+, @tag(	//	t
+65535) @lengthOf(
+packetx	)
+
+@lengthOf(	Pad
+)
+        // trailing space 
+// " ++ [27880; 37322]%N ++ runes_of_ascii "
+  repeatCount  BodyLength ,	// a // b
+	char[] 
+A
+
+@lengthOf(	// packet A { u8 x, }
+	a1  )  `two words`, }
+
+packet  falsey// " ++ [27880; 37322]%N ++ runes_of_ascii "
+  { } ")).
 Eval vm_compute in ("<<<M97>>>" ++ check (runes_of_ascii "options
 // trailing space 
 // " ++ [27880; 37322]%N ++ runes_of_ascii "
@@ -964,1336 +515,646 @@ string
 falsey ,
 }
 ")).
-Eval vm_compute in ("<<<M3648>>>" ++ check (runes_of_ascii "// " ++ [128512]%N ++ runes_of_ascii " emoji
-packet u128 {
-    repeat MetaDataX,
-    int64 leftPad,//	t
-    @lengthOf(matchKey)
-    //
-    @calculatedFrom(""" ++ [28040; 24687]%N ++ runes_of_ascii """)
-    match T as Header {
-        255 : repeatCount,
-        ""it's"" : roots,
+Eval vm_compute in ("<<<M1912>>>" ++ check (runes_of_ascii "packet A {
+    repeat o Z9_,
+    @calculatedFrom(""" ++ [233]%N ++ runes_of_ascii "t" ++ [233]%N ++ runes_of_ascii """)
+    @calculatedFrom(""a\\"")
+    @tag(42)
+    match Header as tag {
+        ""`tick`"" : As,
+        [""\" ++ [233]%N ++ runes_of_ascii """] : asx,
+        [3, ""1"", ""\n"", 007, ""\n""] : options1,
+        ""abc"" : falsey,
+        4294967296 : metadata,
     },
+    @tag(4294967296)
+    tag @calculatedFrom(""" ++ [128512]%N ++ runes_of_ascii """),
 }
 
-//
-//	t
-packet MetaDataX {
-    repeat chars asx `tab	here`,
-    repeat o {
-        repeat _x {
-            repeat uint32 charz `u8 x,`,
-            zchar[42] leftPad @calculatedFrom(""" ++ [28040; 24687]%N ++ runes_of_ascii """) `doc`,/// triple
-        },
-    },
-    int16 u @lengthOf(f32a) `tab	here`,
-    match f32a as i64_ {
-        00 : len,
-    },
-}
-
-MetaData pack {
-    f32a packetx,
-    zchar[10] Header `tab	here`,
-    zchar[007] string_ `crlf
-        line`,
-    char[] matchKey,
-    float64 float,
-}")).
-Eval vm_compute in ("<<<M3263>>>" ++ check (runes_of_ascii "// top
-options // c0
-{ // c1
-chars // c2
-= // c3
-""a\\"" // c4
-} // c5
-packet // c6
-Z9_ // c7
-{ // c8
-match // c9
-BodyLength // c10
-as // c11
-roots // c12
-{ // c13
-""" ++ [28040; 24687]%N ++ runes_of_ascii """ // c14
-: // c15
-falsey // c16
-, // c17
-00 // c18
-: // c19
-u128 // c20
-0 // c21
-: // c22
-len // c23
-, // c24
-007 // c25
-: // c26
-f32a // c27
-} // c28
-, // c29
-@tag( // c30
-3 // c31
-) // c32
-@calculatedFrom( // c33
-""`tick`"" // c34
-) // c35
-@leftPad // c36
-( // c37
-' ' // c38
-) // c39
-string // c40
-asx // c41
-, // c42
-string // c43
-u // c44
-@lengthOf( // c45
-options1 // c46
-) // c47
-, // c48
-float32 // c49
-i64_ // c50
-@calculatedFrom( // c51
-""a\""b"" // c52
-) // c53
-, // c54
-} // c55
-")).
-Eval vm_compute in ("<<<M3490>>>" ++ check (runes_of_ascii "// top
-packet // c0
-MDSnapshotZZ { // c2a
-  // c2b
-u8 a
-    // c4
-, } // c6
-packet // c7a
-  // c7b
-OrderACK // c8a
-  // c8b
-{ u16 b
-    // c11
-, // c12a
-  // c12b
-} // c13
-packet
-    // c14
-HTTPServerInfo {
-    // c16
-string s
-    // c18
-, } root // c21a
-  // c21b
-packet // c22
-FIXMsg // c23
-{ // c24
-u8 // c25
-KType , MDSnapshotZZ , repeat // c30a
-  // c30b
-OrderACK
-    // c31
-, // c32a
-  // c32b
-match
-    // c33
-KType // c34a
-  // c34b
-as
-    // c35
-Body // c36
-{ 1 : // c39
-HTTPServerInfo // c40
-, // c41
-2 // c42
-: // c43
-OrderACK // c44a
-  // c44b
-, // c45
-} // c46a
-  // c46b
-, // c47a
-  // c47b
-} // c48a
-  // c48b
-")).
-Eval vm_compute in ("<<<M4108>>>" ++ check (runes_of_ascii "packet crc {
-    @rightPad('0')
-    char[7] matchKey @calculatedFrom(""{,}""),
-}
-
-packet x_y_z {
-    @calculatedFrom(""a\""b"")
-    T {
-        Header {
-            // packet A { u8 x, }
-            lengthOf packetx `// not a comment`,
-            A i8i8 `crlf
-            line`,
-            string o `line1
-            line2`,
-            string_ @lengthOf(tag) `line1
-            line2`,
-        },
-    },
-    match lengthOf as Z9_ {
-        ""\" ++ [233]%N ++ runes_of_ascii """ : A,
-    },
-    match rootA as matchKey {
-        [""`tick`"", ""x y""] : Packet,
-    },//x
-    repeat zchar[1] _x,
-    char[] msg_type,
-    A rootA,
-}//")).
-Eval vm_compute in ("<<<M20>>>" ++ check (runes_of_ascii "// " ++ [128512]%N ++ runes_of_ascii " emoji
-MetaData o
-    { } packet uint8x { uint8
-    // c
-    u128  @lengthOf(
-body  )  `// not a comment` , @calculatedFrom( ""1"" ) options1{
-    repeat Foo crc , zchar[ 255] MetaDataX
-    /// triple
-    @calculatedFrom( ""\" ++ [233]%N ++ runes_of_ascii """ ) , Foo { char[ 1 ] msg_type ,
-    } ,
-    },
-float64
-    falsey @lengthOf(
-f32a )
-,
-    match
-// packet A { u8 x, }
-//
-BodyLength
-    as f32a
-{ """ ++ [128512]%N ++ runes_of_ascii """
-: x_y_z ,	""" ++ [128512]%N ++ runes_of_ascii """ :
-    BodyLength ,""" ++ [28040; 24687]%N ++ runes_of_ascii """ : Foo
-,
-    } , @lengthOf( lengthOf ) repeat len , // " ++ [128512]%N ++ runes_of_ascii " emoji
-crc float`line1
-line2`
-    , }MetaData repeatCount {
-tag x, //	t
-}
-")).
-Eval vm_compute in ("<<<M1347>>>" ++ check (runes_of_ascii "packet Packet{
-    //x
-    int64 u128 @calculatedFrom(	""it's"" )
-,
-// trailing space 
-// @lengthOf(
-@lengthOf( _x )
-@leftPad (
-) match rootA  as
-calculatedFrom{	""1"" :leftPad ,[
-    42 , """ ++ [128512]%N ++ runes_of_ascii """ ] :pack[ ""it's"",
-3
-//x
 // `tick` ""quote"" 'q'
-, """", """ ++ [128512]%N ++ runes_of_ascii """
-] : As
-, } , char[
-0
-    //
-    ] matchKey `" ++ [233]%N ++ runes_of_ascii "` , u64 lengthOf ,
-@lengthOf( zchar ) // c
-char[ 7
-// " ++ [27880; 37322]%N ++ runes_of_ascii "
-//
-]
-rootA
-@lengthOf( u ),  }MetaData int { u16 // @lengthOf(
-Pad , }	packet stringy {zchar[// `tick` ""quote"" 'q'
-1 ] msg_type`tab	here` , //	t
-} options { x = 00
-    }")).
-Eval vm_compute in ("<<<M675>>>" ++ check (runes_of_ascii "packet charz{
-@rightPad
-    // a // b
-    (
-// trailing space 
-//x
-'0'
-)  repeat float32 options1 , @tag(
-00
-) zchar[007
-    // a // b
-    ]
-lengthOf , @calculatedFrom(
-"""" )
-    i8 MetaDataX
-, repeat
-char[] string_ ,// packet A { u8 x, }
-match u	as
-// a // b
-// `tick` ""quote"" 'q'
-string_ {
-    [ ""\n"" , 0123456789
-,	""it's"" , 0123456789,3
-    , ""a\""b"" ]
-    : packetx,""" ++ [28040; 24687]%N ++ runes_of_ascii """ : _x ,""a\""b""// " ++ [128512]%N ++ runes_of_ascii " emoji
-: // " ++ [128512]%N ++ runes_of_ascii " emoji
-roots 65535 :crc , },@tag( 7
-)
-uint8x
-u8x
-    // " ++ [27880; 37322]%N ++ runes_of_ascii "
-    ,
-Logon charz  `{ , }` , }
-")).
-Eval vm_compute in ("<<<M1262>>>" ++ check (runes_of_ascii "packet MetaDataX {@tag( // @lengthOf(
-3  ) int16//	t
-Pad `line1
-line2`  ,
-    @lengthOf( i8i8 ) match u8x
-as Packet { 1: u128
-    , ""`tick`""
-:
-matchKey, },@lengthOf(
-packetx ) zchar[ 4294967296 ] Z9_// @lengthOf(
-@calculatedFrom(
-    // a // b
-    ""abc""	)  , //	t
-@tag( 255)
-    int64
-i64_ @lengthOf( Packet )  , repeat uint8 u128
-    ,As metadata // @lengthOf(
-, @lengthOf(
-    asx	)
-@lengthOf(  A ) //	t
-@calculatedFrom( ""CRC32"") //
-u8 options1 `say ""hi""`
-    , }
-")).
-Eval vm_compute in ("<<<M970>>>" ++ check (runes_of_ascii "packet
-    x_y_z
-{ @tag(7
-)
-    u128 u8x	, char[
-1 ]
-x_y_z
-    `{ , }`, @lengthOf( T ) @calculatedFrom(""" ++ [28040; 24687]%N ++ runes_of_ascii """
-    )
-    @lengthOf( BodyLength )
-//x
-// packet A { u8 x, }
-match body as// " ++ [27880; 37322]%N ++ runes_of_ascii "
-u {
-0123456789 // a // b
-: rootA
-    ,
-    } , }
-root packet
-Logon {} MetaData
-    // trailing space 
-    lengthOf{ repeatCount As , u16 MetaDataX
-`crlf
-line`
-    ,
-//	t
-// " ++ [27880; 37322]%N ++ runes_of_ascii "
-Packet
-BodyLength,
-falsey _x
-`u8 x,` , zchar[
-    3 ]// `tick` ""quote"" 'q'
-Z9_ , }
-")).
-Eval vm_compute in ("<<<M3888>>>" ++ check (runes_of_ascii "packet i64_ {
-    @lengthOf(Foo)
-    // `tick` ""quote"" 'q'
-    @lengthOf(calculatedFrom)
-    o @calculatedFrom(""{,}""),
-    uint16 lengthOf @calculatedFrom(""" ++ [128512]%N ++ runes_of_ascii """),
-    char[007] trueish,
-    @tag(00)
-    @tag(007)
-    // a // b
-    // " ++ [128512]%N ++ runes_of_ascii " emoji
-    float @calculatedFrom(""\n""),
-    charz A,
-    Logon @calculatedFrom(""// no comment"") `
+packet stringy {
+    char[] packetx `
         `,
-    @lengthOf(msg_type)
-    BodyLength As `a\`,
-    zchar[10] zchar @calculatedFrom("""") `doc`,
-}")).
-Eval vm_compute in ("<<<M621>>>" ++ check (runes_of_ascii "packet As {@calculatedFrom( """ ++ [28040; 24687]%N ++ runes_of_ascii """
-    ) repeat float { BodyLength chars `doc`
-,
-    }
-, repeat char[ 255 ]packetx , string
-    rootA `line1
-line2` , uint8 i64_ `line1
-line2` ,
-@lengthOf(_x )// trailing space 
-BodyLength
-, stringy{
-    /// triple
-    repeat zchar[  0123456789
-] i8i8 , //
-} ,
-match
-f32a
-as
-u128
-    { [
-    ""// no comment"" // trailing space 
-, ""a\""b"" ] :o ,
-""" ++ [128512]%N ++ runes_of_ascii """:	a1 , }
-, repeat
-    charz zchar
-    , }
-")).
-Eval vm_compute in ("<<<M1209>>>" ++ check (runes_of_ascii "root
-packet Packet{// " ++ [27880; 37322]%N ++ runes_of_ascii "
-@tag( 255 ) @tag( 4294967296 ) match options1 as matchKey { ""CRC32"" :	crc
-, } , @tag( 00 )
-    trueish	,
-repeat lengthOf ,
-@tag(
-    42
-)
-    zchar[ 4294967296 ] Logon@lengthOf(	i64_ )`doc`
-,
-} packet string_// trailing space 
-{ @tag( 4294967296
-    // a // b
-    )
-    repeat zchar[65535
-    ] options1
-`// not a comment`, float32 Packet	@lengthOf(u ) ,
-    int8	Foo
-, }
-")).
-Eval vm_compute in ("<<<M117>>>" ++ check (runes_of_ascii "
-packet x { @leftPad ( )	i32 float
-,}
-    options{  chars =
-'0'
-    ;Header // c
-=
-""`tick`""  x =
-// `tick` ""quote"" 'q'
-//
-'\x00' ; rootA = char[	65535  ] ;
-}options	{
-x =
-""it's"" asx
+    string leftPad @lengthOf(float),
+    @tag(65535)
+    @lengthOf(packetx)
+    @lengthOf(Pad)
+    // trailing space 
     // " ++ [27880; 37322]%N ++ runes_of_ascii "
-    = char[ 007] ;  zchar= int8 ;
-//	t
-// a // b
-zchar =true ; chars= char[]
-/// triple
-// `tick` ""quote"" 'q'
+    repeatCount BodyLength,// a // b
+    char[] A @lengthOf(a1) `two words`,
 }
-    options {  o  = 7 Logon
-=	10 /// triple
-body =
-    false a1 // c
-= ""x y"" }
-")).
-Eval vm_compute in ("<<<M4355>>>" ++ check (runes_of_ascii "
 
-  options{}options {
-    x
-=true }	MetaData
+packet falsey {
+}")).
+Eval vm_compute in ("<<<M1999>>>" ++ check (runes_of_ascii "packet uint8x {
+    string_ {
+        repeat zchar {
+            // `tick` ""quote"" 'q'
+            //x
+            match u128 as A {
+                42 : pack,
+            },// " ++ [27880; 37322]%N ++ runes_of_ascii "
+            int64 u128,
+            repeatCount `it's`,
+            string asx @calculatedFrom(""a\""b""),
+        },
+        matchKey @calculatedFrom(""1""),
+    },
+    match o as Z9_ {
+        // a // b
+        [7] : uint8x,
+        [00, """ ++ [233]%N ++ runes_of_ascii "t" ++ [233]%N ++ runes_of_ascii """, ""\" ++ [233]%N ++ runes_of_ascii """] : Packet,
+        // a // b
+    },
+    f32 A,
+}
 
-uint8x
-    { i8i8
-u8x
-`tab	here`
+root packet Foo {
+    repeat float32 msg_type,
+}")).
+Eval vm_compute in ("<<<M1463>>>" ++ check (runes_of_ascii "options
+
+{
+	LittleEndian
+=	false
+    ;
+
+    StringPrefixLenType=
+	u8; 
+ArrayPrefixLenType
+=
+u16
+
+;
+    FixedStringPadFromLeft  = false ;
+} packet	Heartbeat {
+u8
+
+seqNo
+
+    ,
+    @rightPad  (
+'\x00'
+
+    )
+
+char[
+
+    8
+] x ,
+    }
+
+    root
+packet 
+Trade	{ 
+repeat	Heartbeat
+
+    ,
+
+    float32  OrderId
+,
+i64 Acct  , 
+u16	Qty ,u16  clOrdID
 	,
 
-    char[
-0123456789 
-]calculatedFrom	``
+match
+	clOrdID	as
+	Body
+	{
+131	: Heartbeat ,
+},u16	sym@calculatedFrom(  ""CRC32""	)  , }")).
+Eval vm_compute in ("<<<M1386>>>" ++ check (runes_of_ascii "// top
+packet // c0a
+  // c0b
+A { // c2
+u8 // c3a
+  // c3b
+a
+    // c4
+, // c5
+} // c6a
+  // c6b
+packet B // c8a
+  // c8b
+{
+    // c9
+u16 b // c11
+, // c12a
+  // c12b
+} root // c14
+packet // c15
+P { // c17
+u8 // c18a
+  // c18b
+K , // c20
+match // c21
+K
+    // c22
+as // c23
+M { // c25
+1
+    // c26
+: // c27a
+  // c27b
+A // c28
+, 1 // c30
+: B // c32a
+  // c32b
+, // c33a
+  // c33b
+} // c34
+, // c35
+} ")).
+Eval vm_compute in ("<<<M1659>>>" ++ check (runes_of_ascii "packet u128 {
+    // c2
+    u8 a,// c5a
+    // c5b
+}// c6
 
-    ,
-float64 uint8x
-
-    ,charz options1 , }options { i8i8 = char[
-007 ]
-	// " ++ [27880; 37322]%N ++ runes_of_ascii "
-
-	// " ++ [27880; 37322]%N ++ runes_of_ascii "
-  ;
-
-}
-options	{ options1 =
-    '\x00';  // packet A { u8 x, }
-    	zchar =
-
-    '\x00' //
-	  string_//x
-
-= //
-  """ ++ [128512]%N ++ runes_of_ascii """
-	; body
-=
-    '0'
-
-}
-
-")).
-Eval vm_compute in ("<<<M3966>>>" ++ check (runes_of_ascii "options {
-    Foo = ' ';//
-    calculatedFrom = '\x00';
-    Logon = 0//
-    x = '\x00';// packet A { u8 x, }
-}
-
-packet _x {
-    @calculatedFrom(""" ++ [28040; 24687]%N ++ runes_of_ascii """)
-    repeat int32 Z9_,
-    Pad packetx,
-    @lengthOf(u128)
-    @tag(1)
-    match msg_type as x {
-        // @lengthOf(
-        [""" ++ [233]%N ++ runes_of_ascii "t" ++ [233]%N ++ runes_of_ascii """] : x,
+root packet Msg {
+    // c10
+    u8 k,// c13
+    u24 {
+        // c15
+        u8 Hi,// c18a
+        // c18b
+        u16 Lo,// c21
+    },// c23a
+    // c23b
+    repeat i24 {
+        // c26
+        u32 q,
+        // c29
     },
-    @lengthOf(a1)
-    leftPad As,
-    i8i8 _x,
-}// " ++ [128512]%N ++ runes_of_ascii " emoji")).
-Eval vm_compute in ("<<<M864>>>" ++ check (runes_of_ascii "options{
-    msg_type =false len= 4294967296  ; asx= false
-// a // b
-// `tick` ""quote"" 'q'
-A = '\x00' float= zchar[
-    007 ] }
-packet u128
-{ float32 msg_type `a\`// c
-, } MetaData T{
-int64 o `" ++ [28040; 24687; 31867; 22411]%N ++ runes_of_ascii "`// @lengthOf(
-, char[]
-    Foo  , }options	{packetx =uint32	;	roots
-    = false ; falsey=zchar[
-    00 ]
-}options {
-    Logon = float32 }
-
-")).
-Eval vm_compute in ("<<<M52>>>" ++ check (runes_of_ascii "// `tick` ""quote"" 'q'
-root packet u128{Z9_ { match trueish // c
-as rootA { [	""abc"" , ""{,}""
-,// c
-0 ]
-: MetaDataX [
-""a\""b""
-]
-: tag ,
-""CRC32"" :
-//	t
-/// triple
-options1 ,
-    [
-    """ ++ [28040; 24687]%N ++ runes_of_ascii """,
-""a\\"" ] :
-lengthOf
-    , ""a\""b""
-: chars ,
-    } , }
-,
-    @rightPad( '0'	) @calculatedFrom( ""CRC32"" ) char[00 ] packetx,
-} // a // b")).
-Eval vm_compute in ("<<<M842>>>" ++ check (runes_of_ascii "// @lengthOf(
-packet
-    _x {  @calculatedFrom( ""a	b"" )
-T rootA ``, u64 body	@calculatedFrom(""a	b""  )
-    //x
-    `two words` ,	zchar[
-7 ] MetaDataX @calculatedFrom( ""it's"")`say ""hi""` /// triple
-,
+    u128,
+    // c33
+    u16 float32x,
+    string s,// c39a
+    // c39b
+}")).
+Eval vm_compute in ("<<<M199>>>" ++ check (runes_of_ascii "packet
+    body {
+@rightPad(	'0'	) Packet a1 ,asx ,repeatCount
 // trailing space 
-// `tick` ""quote"" 'q'
-f32a {repeat zchar[
-    00
-    ]
-roots`" ++ [233]%N ++ runes_of_ascii "` ,}	, } // `tick` ""quote"" 'q'")).
-Eval vm_compute in ("<<<M314>>>" ++ check (runes_of_ascii "options
-{roots =3 leftPad
-/// triple
+// packet A { u8 x, }
+{// trailing space 
+repeat int64 falsey , },	@rightPad
 // c
-= string	; packetx =	false ; zchar
-= true options1 = false ;
-    } MetaData
-    string_ {i32 x_y_z
-    ,char[ 4294967296
-] zchar`two words`
-, // c
-char[ 42 ] metadata
-, }packet _x {
-    int8 rootA`doc` ,
-    } options
-{ lengthOf =
-    ""// no comment"" } 	 ")).
-Eval vm_compute in ("<<<M1422>>>" ++ check (runes_of_ascii "root packet char[] // " ++ [128512]%N ++ runes_of_ascii " emoji
-{ } options {
-    // a // b
-    tag // `tick` ""quote"" 'q'
-= //	t
-""""
-    ; u8x = zchar[0  ] }
-MetaData
-    int {zchar[ 10]
-lengthOf	`` , i64 u8x`// not a comment` ,MetaDataX pack// `tick` ""quote"" 'q'
-`crlf
-line`
-, Logon charz `crlf
-line`
-    ,
-    // a // b
-    }
-")).
-Eval vm_compute in ("<<<M1595>>>" ++ check (runes_of_ascii "root packet Foo // " ++ [128512]%N ++ runes_of_ascii " emoji
-{ } options {
-    // a // b
-    tag // `tick` ""quote"" 'q'
-= //	t
-""""
-    ; u8x = zchar[0  ] }
-MetaData
-    int {zchar[ 10]
-lengthOf	`` , i64 u8x`// not a comment` ,MetaDataX pack// `tick` ""quote"" 'q'
-`crlf
-line`
-, Logon charz `crlf
-line`
-    , ,
-    // a // b
-    }
-")).
-Eval vm_compute in ("<<<M1446>>>" ++ check (runes_of_ascii "root packet Foo // " ++ [128512]%N ++ runes_of_ascii " emoji
-{ } options {
-    // a // b
-    = // `tick` ""quote"" 'q'
-tag //	t
-""""
-    ; u8x = zchar[0  ] }
-MetaData
-    int {zchar[ 10]
-lengthOf	`` , i64 u8x`// not a comment` ,MetaDataX pack// `tick` ""quote"" 'q'
-`crlf
-line`
-, Logon charz `crlf
-line`
-    ,
-    // a // b
-    }
-")).
-Eval vm_compute in ("<<<M4119>>>" ++ check (runes_of_ascii "
-MetaData
-charz{
-
-}	// " ++ [27880; 37322]%N ++ runes_of_ascii "
-  	root  packet
-
-    matchKey {  o	@calculatedFrom( ""a\""b""  )
-,zchar[10
-
-    ]
-i8i8
-
-    @calculatedFrom(
-""1""
-) 
-`tab	here` , match	crc as
-
-rootA{ 255 :
-	Z9_ , 42 :// c
-	lengthOf , 
-[ 0 ,
-
-007
-
-    ]:Logon  ""\n""
-	:
-    T
-    0123456789 : float  ,
-
-} , 
-}
-")).
-Eval vm_compute in ("<<<M1582>>>" ++ check (runes_of_ascii "root packet Foo // " ++ [128512]%N ++ runes_of_ascii " emoji
-{ } options {
-    // a // b
-    tag // `tick` ""quote"" 'q'
-= //	t
-""""
-    ; u8x = zchar[0  ] }
-MetaData
-    int {zchar[ 10]
-lengthOf	`` , i64 u8x`// not a comment` ,MetaDataX pack// `tick` ""quote"" 'q'
-`crlf
-line`
-, f32 charz `crlf
-line`
-    ,
-    // a // b
-    }
-")).
-Eval vm_compute in ("<<<M879>>>" ++ check (runes_of_ascii "packet
-calculatedFrom {
-repeat charz , Logon @calculatedFrom( ""packet"")
-    , @tag(
-1 )
-    repeat zchar[	255
-] rootA
-    , string
-calculatedFrom `two words`, @rightPad ( ' ' )
-@calculatedFrom(""\n"" )@tag(4294967296 )
-chars @calculatedFrom( """ ++ [233]%N ++ runes_of_ascii "t" ++ [233]%N ++ runes_of_ascii """ ) `
-` // c
-,  repeat u128//x
-int
+// a // b
+( '0'
+)	match int
+    // " ++ [27880; 37322]%N ++ runes_of_ascii "
+    as T { 4294967296
+: _x, 00 :  string_// c
+,
+    [""x y""  ] :  stringy, } ,// packet A { u8 x, }
+uint32 x_y_z
 ,
 }")).
-Eval vm_compute in ("<<<M1005>>>" ++ check (runes_of_ascii "packet o {
-@lengthOf(matchKey	) Logon ,
-@lengthOf( u128 ) Header metadata `u8 x,` ,
-// " ++ [27880; 37322]%N ++ runes_of_ascii "
-// `tick` ""quote"" 'q'
-@leftPad	(' '
-    //
-    )
-@lengthOf( Header ) @calculatedFrom( ""\" ++ [233]%N ++ runes_of_ascii """ )f32a
-@lengthOf( asx)	, } MetaData leftPad{ i32
-    // `tick` ""quote"" 'q'
-    charz `
-` ,
-}
-")).
-Eval vm_compute in ("<<<M560>>>" ++ check (runes_of_ascii "options { lengthOf
-    = 7 u8x // " ++ [27880; 37322]%N ++ runes_of_ascii "
-= true  ;
-matchKey =
-65535 ;// trailing space 
-As // " ++ [27880; 37322]%N ++ runes_of_ascii "
-=
-    4294967296
-    ;
-    packetx
-=
-    true
-    ;}packet
-Foo {@lengthOf( u8x /// triple
-) float32 trueish , repeat
-char[] crc// " ++ [128512]%N ++ runes_of_ascii " emoji
-, repeat int,} packet As { }
-")).
-Eval vm_compute in ("<<<M4349>>>" ++ check (runes_of_ascii "options {
-    falsey = ""a	b"";
-    leftPad = '0';
-    o = float64
-}
+Eval vm_compute in ("<<<M1677>>>" ++ check (runes_of_ascii "  packet
 
-packet x {
-    match f32a as uint8x {
-        [
-            255, 7, 42, 7, ""abc"",
-            255, ""1"", 0
-        ] : matchKey,
-        // trailing space 
-    },
-}// packet A { u8 x, }")).
-Eval vm_compute in ("<<<M3756>>>" ++ check (runes_of_ascii "root packet Foo {
+    P1{  u8 a, } packet
+    P2 { P1 ,
+}  packet P3
+    {
+
+P2
+
+    ,
+P1	,	} 
+packet P4 
+{
+repeat
+P3
+    ,P2
+    ,
+	}
+root
+
+    packet
+P5 {
+
+P4
+, P3 , P1,
+
+    u8
+    K 
+,
+match
+	K as
+Body
+	{
+    4
+	: 
+P4
+	, 3  :
+    P3
+,
+2 :	P2	,  1
+    :  P1,
+
+    } 
+,  }
+")).
+Eval vm_compute in ("<<<M344>>>" ++ check (runes_of_ascii "packet
+chars {repeat float32  x_y_z
+    , @tag( 0123456789
+    )	char[
+255	] rootA `{ , }` , } options  { x= zchar[
+    00
+] ;
+Packet= '\x00' ; }
+    options{Z9_ =// packet A { u8 x, }
+""CRC32"" ;
+    As = // `tick` ""quote"" 'q'
+uint32 ; } // a // b")).
+Eval vm_compute in ("<<<M1533>>>" ++ check (runes_of_ascii "MetaData packetx {
+    packetx i64_ `say ""hi""`,
 }
 
 options {
-    // a //# b
-    tag = """";
-    u8x = zchar[0]
 }
 
-MetaData int {
-    zchar[10] lengthOf ``,
-    i64 u8x `// not a comment`,
-    MetaDataX pack `crlf
+packet string_ {
+    @lengthOf(repeatCount)
+    len {
+        zchar[10] u128,
+        f32 falsey `say ""hi""`,
+        uint16 f32a `crlf
+        line`,
+    },
+}
+// " ++ [27880; 37322]%N)).
+Eval vm_compute in ("<<<M422>>>" ++ check (runes_of_ascii "options
+{
+matchKey = 42/// triple
+x='0' '0' ;
+// packet A { u8 x, }
+//
+charz
+=
+// packet A { u8 x, }
+// trailing space 
+true  ; } MetaData BodyLength
+{
+uint8
+pack,zchar[ 1]float ,  float32 x_y_z `` ,u32
+_x,i16 body  , }
+")).
+Eval vm_compute in ("<<<M542>>>" ++ check (runes_of_ascii "options
+{
+matchKey = 42/// triple
+x='0' ;
+// packet A { u8 x, }
+//
+charz
+=
+// packet A { u8 x, }
+// trailing space 
+true  ; } MetaData BodyLength
+{
+uint8
+pack,zchar[ 1]float ,  float32 x_y_z `` ,u32
+_x, ,i16 body  , }
+")).
+Eval vm_compute in ("<<<M408>>>" ++ check (runes_of_ascii "options
+{
+matchKey = x/// triple
+42='0' ;
+// packet A { u8 x, }
+//
+charz
+=
+// packet A { u8 x, }
+// trailing space 
+true  ; } MetaData BodyLength
+{
+uint8
+pack,zchar[ 1]float ,  float32 x_y_z `` ,u32
+_x,i16 body  , }
+")).
+Eval vm_compute in ("<<<M558>>>" ++ check (runes_of_ascii "options
+{
+matchKey = 42/// triple
+x='0' ;
+// packet A { u8 x, }
+//
+charz
+=
+// packet A { u8 x, }
+// trailing space 
+true  ; } MetaData BodyLength
+{
+uint8
+pack,zchar[ 1]float ,  float32 x_y_z `` ,u32
+_x,i16 body  } ,
+")).
+Eval vm_compute in ("<<<M441>>>" ++ check (runes_of_ascii "options
+{
+matchKey = 42/// triple
+x='0' ;
+// packet A { u8 x, }
+//
+charz
+=
+// packet A { u8 x, }
+// trailing space 
+  ; } MetaData BodyLength
+{
+uint8
+pack,zchar[ 1]float ,  float32 x_y_z `` ,u32
+_x,i16 body  , }
+")).
+Eval vm_compute in ("<<<M550>>>" ++ check (runes_of_ascii "options
+{
+matchKey = 42/// triple
+x='0' ;
+// packet A { u8 x, }
+//
+charz
+=
+// packet A { u8 x, }
+// trailing space 
+true  ; } MetaData BodyLength
+{
+uint8
+pack,zchar[ 1]float ,  float32 x_y_z `` ,u32
+_x,")).
+Eval vm_compute in ("<<<M696>>>" ++ check (runes_of_ascii "// c
+packet packet i64_ {	char[] calculatedFrom , } packet
+trueish  {@calculatedFrom(
+""a\\"" ) o { i32 falsey@lengthOf( uint8x ),
+} , } // `tick` ""quote"" 'q'
+options {// c
+Z9_ = ' '//
+}
+")).
+Eval vm_compute in ("<<<M719>>>" ++ check (runes_of_ascii "// c
+packet i64_ {	char[] calculatedFrom , } packet
+trueish  {@calculatedFrom(
+""a\\"" ) o { i32 falsey@lengthOf( uint8x ) ),
+} , } // `tick` ""quote"" 'q'
+options {// c
+Z9_ = ' '//
+}
+")).
+Eval vm_compute in ("<<<M708>>>" ++ check (runes_of_ascii "// c
+packet i64_ {	char[] calculatedFrom , } packet
+trueish  {@calculatedFrom(
+""a\\"" ) o { i32 falsey@lengthOf( uint8x ),
+} , } // `tick` ""quote"" 'q'
+options {// c
+ = ' '//
+}
+")).
+Eval vm_compute in ("<<<M206>>>" ++ check (runes_of_ascii "options
+    {As
+=false	;
+}root packet calculatedFrom // a // b
+{ zchar[
+255 ] Z9_
+,  }  MetaData metadata{ int8 chars
+, char[]
+charz `two words` , char[ 0]
+rootA, }")).
+Eval vm_compute in ("<<<M567>>>" ++ check (runes_of_ascii "options
+{
+matchKey = 42/// triple
+x='0' ;
+// packet A { u8 x, }
+//
+charz
+=
+// packet A { u8 x, }
+// trailing space 
+true  ; } MetaData BodyLength
+{
+uin")).
+Eval vm_compute in ("<<<M1687>>>" ++ check (runes_of_ascii "root packet stringy {
+    @tag(7)
+    @tag(1)
+    @rightPad('\x00')
+    Foo x `crlf
     line`,
-    Logon charz `crlf
-    line`,
-    // a // b
+    @calculatedFrom(""a	b"")
+    roots `it's`,
 }")).
-Eval vm_compute in ("<<<M3867>>>" ++ check (runes_of_ascii "  options
-{	a1
+Eval vm_compute in ("<<<M1930>>>" ++ check (runes_of_ascii "
 
-= char[1 ] 	 // " ++ [27880; 37322]%N ++ runes_of_ascii "
-	;  x=
-f64 ;
+  packet
+calculatedFrom  { 
+@tag(4294967296
 
-Z9_
-    = 
-    //x
-	//
-	char[  3
-    ] ;
-Z9_
+    )
 
-    = '\x00' 
-x_y_z  = zchar[ 
-10
+u 
+// c
+    msg_type
+,
+char[
+	3
     ]
 
-    ;
-}
-
-    packet x_y_z  { chars
-
-trueish `it's`
-        // " ++ [128512]%N ++ runes_of_ascii " emoji
-  	//x
-      ,
-}")).
-Eval vm_compute in ("<<<M257>>>" ++ check (runes_of_ascii "packet
-float { f64 float `u8 x,` ,
-// " ++ [27880; 37322]%N ++ runes_of_ascii "
-//	t
-@tag(
-1 )len tag `crlf
-line`
-, } root packet u	{ o x `it's` , @rightPad
-    ( ) repeat zchar[
-00]	Foo ,
-    // trailing space 
-    }root
-packet// `tick` ""quote"" 'q'
-string_{}
+crc @lengthOf(
+	len ) `u8 x,`
+	, }
 
 ")).
-Eval vm_compute in ("<<<M2273>>>" ++ check (runes_of_ascii "MetaData Packet { }packet	asx  { @lengthOf( asx) falsey`crlf
-line`
-'\x00'
-    }
-    packet x	{uint32// @lengthOf(
-rootA	,u32 options1 `say ""hi""` , @tag( 7
-    )// packet A { u8 x, }
-msg_type @lengthOf(
-stringy	)	, }
-
-")).
-Eval vm_compute in ("<<<M2341>>>" ++ check (runes_of_ascii "MetaData Packet { }packet	asx  { @lengthOf( asx) falsey`crlf
-line`
-,
-    }
-    packet x	{uint32// @lengthOf(
-rootA	,u32 options1 `say ""hi""` , @tag( 7
-    ) )// packet A { u8 x, }
-msg_type @lengthOf(
-stringy	)	, }
-
-")).
-Eval vm_compute in ("<<<M2242>>>" ++ check (runes_of_ascii "MetaData Packet { }packet	asx  @lengthOf( { asx) falsey`crlf
-line`
-,
-    }
-    packet x	{uint32// @lengthOf(
-rootA	,u32 options1 `say ""hi""` , @tag( 7
-    )// packet A { u8 x, }
-msg_type @lengthOf(
-stringy	)	, }
-
-")).
-Eval vm_compute in ("<<<M2240>>>" ++ check (runes_of_ascii "MetaData Packet { }packet	asx   @lengthOf( asx) falsey`crlf
-line`
-,
-    }
-    packet x	{uint32// @lengthOf(
-rootA	,u32 options1 `say ""hi""` , @tag( 7
-    )// packet A { u8 x, }
-msg_type @lengthOf(
-stringy	)	, }
-
-")).
-Eval vm_compute in ("<<<M2373>>>" ++ check (runes_of_ascii "MetaData Packet { }packet	asx  { @lengthOf( asx) falsey`crlf
-line`
-,
-    }
-    packet x	{uint32// @lengthOf(
-rootA	,u32 options1 `say ""hi""` , @tag( 7
-    )// packet A { u8 x, }
-msg_type @lengthOf(
-stringy	)	,")).
-Eval vm_compute in ("<<<M4025>>>" ++ check (runes_of_ascii "packet x_y_z {
-    @tag(0123456789)
-    match T as roots {
-        255 : asx,
-        [1, 3, ""`tick`""] : Header,
-        3 : pack,
-        // " ++ [128512]%N ++ runes_of_ascii " emoji
-    },
-    u64 a1 `tab	here`,
-    _x options1 `{ , }`,
-}")).
-Eval vm_compute in ("<<<M1568>>>" ++ check (runes_of_ascii "root packet Foo // " ++ [128512]%N ++ runes_of_ascii " emoji
-{ } options {
-    // a // b
-    tag // `tick` ""quote"" 'q'
-= //	t
-""""
-    ; u8x = zchar[0  ] }
-MetaData
-    int {zchar[ 10]
-lengthOf	`` , i64 u8x`// not a comment` ,MetaDataX")).
-Eval vm_compute in ("<<<M49>>>" ++ check (runes_of_ascii "// a // b
-root
-    packet string_ { i32 options1 `say ""hi""`
-, } packet stringy
-// " ++ [128512]%N ++ runes_of_ascii " emoji
-/// triple
-{
-    } MetaData
-len  {i8i8
-charz
-    `u8 x,`,
-// `tick` ""quote"" 'q'
-// trailing space 
-}")).
-Eval vm_compute in ("<<<M932>>>" ++ check (runes_of_ascii "packet //x
-roots
-    { @rightPad(
-    '\x00'// a // b
-)
-o Z9_ ,
-@tag( 00 )  @tag(1
-    // trailing space 
-    ) @lengthOf( MetaDataX ) Z9_@calculatedFrom( // @lengthOf(
-""x y"" )	,}
-")).
-Eval vm_compute in ("<<<M147>>>" ++ check (runes_of_ascii "root packet stringy { @tag( 7 ) @tag( 1
-    ) @rightPad (
-'\x00'
-    )Foo // `tick` ""quote"" 'q'
-x`crlf
-line` ,@calculatedFrom(  ""a	b"" ) roots //x
-`it's`// @lengthOf(
-,
-    }")).
-Eval vm_compute in ("<<<M77>>>" ++ check (runes_of_ascii "MetaData o
-    { char[] i64_
-`{ , }`	, u16 tag  ,
-char[]
-lengthOf	`u8 x,` , Z9_  rootA`
-`,
-zchar[	3 // trailing space 
-] u, // " ++ [27880; 37322]%N ++ runes_of_ascii "
-float T
-//	t
-//	t
-`{ , }`
-    , }
-")).
-Eval vm_compute in ("<<<M1243>>>" ++ check (runes_of_ascii "
-packet string_{metadata
-// a // b
-/// triple
-@lengthOf(	T), @lengthOf( x ) Logon @calculatedFrom( """"
-)
-, @calculatedFrom( ""a	b""
-) x_y_z
-    `say ""hi""` ,
-    }
-")).
-Eval vm_compute in ("<<<M584>>>" ++ check (runes_of_ascii "
-root packet leftPad {
-//	t
-// c
-char[] chars , }root
-    packet
-// a // b
-// `tick` ""quote"" 'q'
-stringy
-{// " ++ [27880; 37322]%N ++ runes_of_ascii "
-char[  42 ] A , } packet Foo{
-u128
-A ,
-}
-")).
-Eval vm_compute in ("<<<M3438>>>" ++ check (runes_of_ascii "packet
-    B
-{u8 a
-    ,  }	root packet
-
-    P{ u8
-
-    K
-
-    ,
-	u64
-
-    L@lengthOf(	Body
-)  ,  match 
-K
-	as
-    Body {	1 
-:
-B 
-, 
-},}
-")).
-Eval vm_compute in ("<<<M996>>>" ++ check (runes_of_ascii "root// " ++ [27880; 37322]%N ++ runes_of_ascii "
-packet  MetaDataX { //	t
-@calculatedFrom(""it's""
-    // packet A { u8 x, }
-    )string // " ++ [27880; 37322]%N ++ runes_of_ascii "
-msg_type @calculatedFrom("""" )
-`{ , }` ,}")).
-Eval vm_compute in ("<<<M825>>>" ++ check (runes_of_ascii "
-packet string_ { @calculatedFrom( ""abc"" ) @calculatedFrom(""" ++ [28040; 24687]%N ++ runes_of_ascii """ ) @rightPad (
-//	t
-// packet A { u8 x, }
-'0'
-    )crc len `tab	here`
-,
-}
-")).
-Eval vm_compute in ("<<<M1703>>>" ++ check (runes_of_ascii "root packet /// triple
-rootA {	i32
-MetaDataX@calculatedFrom( ""CRC32"" ) `line1
-line2` , } MetaData BodyLength {
-u8
-rootA rootA, } // c")).
-Eval vm_compute in ("<<<M4249>>>" ++ check (runes_of_ascii "packet A {
+Eval vm_compute in ("<<<M1627>>>" ++ check (runes_of_ascii "packet A {
     match k as n {
         [
-            1, ""bb"", 007, ""d"", 5,
-            ""f"", 7
+            1, 22, 007, 4, 5,
+            66, 7
         ] : B,
         2 : C,
     },
 }")).
-Eval vm_compute in ("<<<M1627>>>" ++ check (runes_of_ascii "packet root /// triple
-rootA {	i32
-MetaDataX@calculatedFrom( ""CRC32"" ) `line1
-line2` , } MetaData BodyLength {
-u8
-rootA, } // c")).
-Eval vm_compute in ("<<<M53>>>" ++ check (runes_of_ascii "  options{ u= ""a	b"" ; charz = true ;
-    matchKey =//x
-0123456789 u8x =
-char[]
+Eval vm_compute in ("<<<M657>>>" ++ check (runes_of_ascii "MetaData
     // trailing space 
-    Packet
-=
-false ; }
+    matchKey
+{ u64 chars // a //'1' b
+,char[] lengthOf `// not a comment`
+    , //	t
+}")).
+Eval vm_compute in ("<<<M969>>>" ++ check (runes_of_ascii "packet A {
+    match k as n {
+        ""x\
+y"" : B,
+        [""x\
+y"", 1] : C,
+        [1,2,3,4,5,""x\
+y""] : D,
+    },
+}")).
+Eval vm_compute in ("<<<M636>>>" ++ check (runes_of_ascii "MetaData
+    // trailing space 
+    matchKey
+{ u64 chars // a // b
+,char[] lengthOf `// not a comment`
+    , //	t
 ")).
-Eval vm_compute in ("<<<M385>>>" ++ check (runes_of_ascii "// @lengthOf(
-packet
-    // " ++ [27880; 37322]%N ++ runes_of_ascii "
-    float{
-    @calculatedFrom(
-    ""abc"" )
-char chars
-    @calculatedFrom(""CRC32"" )`" ++ [233]%N ++ runes_of_ascii "`
-, }
-")).
-Eval vm_compute in ("<<<M1323>>>" ++ check (runes_of_ascii "options {
-tag = ""// no comment""/// triple
-calculatedFrom= 10
-    Packet
-    // `tick` ""quote"" 'q'
-    ='0' ; }
-// a // b
-")).
-Eval vm_compute in ("<<<M1823>>>" ++ check (runes_of_ascii "packet
-    Pad // a // b
-{ i8i8 @calculatedFrom( ""a	b"") `u8 x,` int8
-} options{ float// " ++ [128512]%N ++ runes_of_ascii " emoji
-= f64 i64_
-=//	t
-00 }
-")).
-Eval vm_compute in ("<<<M1687>>>" ++ check (runes_of_ascii "root packet /// triple
-rootA {	i32
-MetaDataX@calculatedFrom( ""CRC32"" ) `line1
-line2` , } MetaData  {
-u8
-rootA, } // c")).
-Eval vm_compute in ("<<<M1807>>>" ++ check (runes_of_ascii "packet
-    Pad // a // b
-{ i8i8 @calculatedFrom( )""a	b"" `u8 x,` ,
-} options{ float// " ++ [128512]%N ++ runes_of_ascii " emoji
-= f64 i64_
-=//	t
-00 }
-")).
-Eval vm_compute in ("<<<M1894>>>" ++ check (runes_of_ascii "packet
-    Pad // a // b
-{ i8i8 @calculatedFrom( ""a	b"") `u8 x,` ,
-} options{ " ++ [252]%N ++ runes_of_ascii "ber// " ++ [128512]%N ++ runes_of_ascii " emoji
-= f64 i64_
-=//	t
-00 }
-")).
-Eval vm_compute in ("<<<M4403>>>" ++ check (runes_of_ascii "packet  Logon	// c
-	{ @tag(42
-    ) @rightPad	( ' ' 
-)  @leftPad ( ) repeat	trueish
-	{ string
+Eval vm_compute in ("<<<M1727>>>" ++ check (runes_of_ascii "packet Pad {
+}
 
-    T , 
-}, 
+packet options1 {
+    // trailing space 
+}
+
+// @lengthOf(
+root packet crc {
+    repeat crc len,
+}")).
+Eval vm_compute in ("<<<M222>>>" ++ check (runes_of_ascii "MetaData float { }  options {
+msg_type=""a	b""
+    i8i8	= true stringy = ""CRC32""
+    } options { len
+= ""\" ++ [233]%N ++ runes_of_ascii """ }")).
+Eval vm_compute in ("<<<M1530>>>" ++ check (runes_of_ascii "MetaData Pad {
+    int64 roots,
+    body u128,
+    float64 x,
+    int32 chars,
+    A options1 `
+    `,
+}")).
+Eval vm_compute in ("<<<M1277>>>" ++ check (runes_of_ascii "packet calculatedFrom { @tag( 4294967296 ) u msg_type , char[ 3 ] crc // c
+@lengthOf( len ) `u8 x,` , }")).
+Eval vm_compute in ("<<<M1877>>>" ++ check (runes_of_ascii "packet o {
+    @tag(42)
+    repeat x {
+        char[0123456789] i64_,
+    },
+    // c
+}
+
+options {
+}")).
+Eval vm_compute in ("<<<M1356>>>" ++ check (runes_of_ascii "packet B {
+    u8 a,
+    string s,
+}
+root packet P {
+    u16 L @lengthOf(B),
+    B,
+    u8 t,
 }
 ")).
-Eval vm_compute in ("<<<M2999>>>" ++ check (runes_of_ascii "packet A {
-  match k as n {
-    [""a"", ""bb"", 007, ""d"", ""e"", 66, ""g"", ""h"", 9, ""j"", ""k"", 12] : B,
-    2 : C
-  },
-}")).
-Eval vm_compute in ("<<<M3004>>>" ++ check (runes_of_ascii "packet A {
-    u16 len @lengthOf(body) `a
-b`,
-    u32 crc @calculatedFrom(""CRC32"") `a
-b`,
-    string body,
-}")).
-Eval vm_compute in ("<<<M4174>>>" ++ check (runes_of_ascii "packet leftPad {
-    char[] MetaDataX `crlf
-        line`,
-    f32 pack @calculatedFrom(""a\\"") `" ++ [28040; 24687; 31867; 22411]%N ++ runes_of_ascii "`,
-}")).
-Eval vm_compute in ("<<<M3346>>>" ++ check (runes_of_ascii "packet calculatedFrom { @tag(
+Eval vm_compute in ("<<<M1155>>>" ++ check (runes_of_ascii "packet Logon { @tag( 42 ) @rightPad ( ' ' ) @leftPad ( )
 // c
-4294967296 ) u msg_type , char[ 3 ] crc @lengthOf( len ) `u8 x,` , }")).
-Eval vm_compute in ("<<<M4132>>>" ++ check (runes_of_ascii "MetaData float {
-    tag body `" ++ [233]%N ++ runes_of_ascii "`,
-    f64 i8i8 `{ , }`,
-    f32 chars `two words`,
-    Pad i64_,
-}//	t")).
-Eval vm_compute in ("<<<M3900>>>" ++ check (runes_of_ascii "packet A {
-    u32 crc @calculatedFrom(""\
-        ""),
-    @calculatedFrom(""\
-        "")
-    u8 y,
-}")).
-Eval vm_compute in ("<<<M1997>>>" ++ check (runes_of_ascii "root
-packet crc
-    { f32a @calculatedFrom( """ ++ [233]%N ++ runes_of_ascii "t" ++ [233]%N ++ runes_of_ascii """ )
-    `say ""hi""` `say ""hi""`, lengthOf `` ,  }")).
-Eval vm_compute in ("<<<M3222>>>" ++ check (runes_of_ascii "packet Logon { @tag( // c
-42 ) @rightPad ( ' ' ) @leftPad ( ) repeat trueish { string T , } , }")).
-Eval vm_compute in ("<<<M3254>>>" ++ check (runes_of_ascii "packet Logon { @tag( 42 ) @rightPad ( ' ' ) @leftPad ( ) repeat trueish { string T , } // c
-, }")).
+repeat trueish { string T , } , }")).
 Eval vm_compute in ("<<<M267>>>" ++ check (runes_of_ascii "root packet repeatCount
 { @lengthOf( Foo  ) @tag( 4294967296 )
 repeat f32	u8x
     , }
 // c
 ")).
-Eval vm_compute in ("<<<M3898>>>" ++ check (runes_of_ascii "packet
-    A 
-{ match 
-k 
-as n  {[ 
-""a""	,
-    ""bb"" ,
+Eval vm_compute in ("<<<M1661>>>" ++ check (runes_of_ascii "
+packet Inner
 
-    ""c c"" ]:
+{
 
-B 2
-    : C
-	}
+u8	a
 	,
-}
+} root  packet	P
+
+{
+
+    Inner
+    ref_obj ,  u8 x
+    ,	}
 ")).
-Eval vm_compute in ("<<<M812>>>" ++ check (runes_of_ascii "packet int {}
-    // packet A { u8 x, }
-    packet Pad { repeat zchar[
-7 ] body`" ++ [233]%N ++ runes_of_ascii "` , }
-")).
-Eval vm_compute in ("<<<M2030>>>" ++ check (runes_of_ascii "root
-packet crc
-    `{ f32a @calculatedFrom( """ ++ [233]%N ++ runes_of_ascii "t" ++ [233]%N ++ runes_of_ascii """ )
-    `say ""hi""`, lengthOf `` ,  }")).
-Eval vm_compute in ("<<<M2004>>>" ++ check (runes_of_ascii "root
-packet crc
-    { f32a @calculatedFrom( """ ++ [233]%N ++ runes_of_ascii "t" ++ [233]%N ++ runes_of_ascii """ )
-    `say ""hi""`] lengthOf `` ,  }")).
-Eval vm_compute in ("<<<M1079>>>" ++ check (runes_of_ascii "MetaData packetx { zchar[
-42 //	t
-] uint8x `doc`
-    , uint16
-string_`two words`,}")).
-Eval vm_compute in ("<<<M2915>>>" ++ check (runes_of_ascii "packet A {
+Eval vm_compute in ("<<<M1604>>>" ++ check (runes_of_ascii "packet A {
+    match k as n {
+        [1, 22, 007, 4, 5] : B,
+        2 : C,
+    },
+}")).
+Eval vm_compute in ("<<<M852>>>" ++ check (runes_of_ascii "packet A {
   match k as n {
-    [1, ""bb"", 007, ""d"", 5, ""f""] : B,
+    [1, 22, 007, 4, 5, 66, 7, 8] : B
     2 : C
   },
 }")).
-Eval vm_compute in ("<<<M3321>>>" ++ check (runes_of_ascii "packet o { @tag( 42 ) repeat x { char[ 0123456789 ] i64_ ,
-// c
-} , } options { }")).
-Eval vm_compute in ("<<<M278>>>" ++ check (runes_of_ascii "options  {Packet= zchar[ 3
-] u128 = zchar[
-42 ] a1=
-'\x00'	;
-crc=	0	; //	t
+Eval vm_compute in ("<<<M1238>>>" ++ check (runes_of_ascii "packet o { @tag( 42 ) repeat x { char[ 0123456789 ] i64_ , } , // c
+} options { }")).
+Eval vm_compute in ("<<<M1341>>>" ++ check (runes_of_ascii "packet Inner {
+    u8 a,
+}
+root packet P {
+    repeat Inner items,
+    u8 x,
 }
 ")).
-Eval vm_compute in ("<<<M1844>>>" ++ check (runes_of_ascii "packet
-    Pad // a // b
-{ i8i8 @calculatedFrom( ""a	b"") `u8 x,` ,
-} options{")).
-Eval vm_compute in ("<<<M909>>>" ++ check (runes_of_ascii "options {
-T =' '	asx ='\x00' ; falsey /// triple
-=  ' '
+Eval vm_compute in ("<<<M332>>>" ++ check (runes_of_ascii "options
+    { packetx =
+    ' ' ;}options {	falsey =
 // " ++ [128512]%N ++ runes_of_ascii " emoji
 // c
-}
+00 ; }")).
+Eval vm_compute in ("<<<M146>>>" ++ check (runes_of_ascii "// `tick` ""quote"" 'q'
+options { leftPad =float32
+} root
+packet o
+{ }
 ")).
-Eval vm_compute in ("<<<M2889>>>" ++ check (runes_of_ascii "packet A {
-  match k as n {
-    [1, ""bb"", 007, ""d""] : B,
-    2 : C
-  },
+Eval vm_compute in ("<<<M1320>>>" ++ check (runes_of_ascii "MetaData _x { zchar[ 4294967296 ]
+// c
+lengthOf `// not a comment` , }")).
+Eval vm_compute in ("<<<M941>>>" ++ check (runes_of_ascii "packet A {
+    B b `a
+
+b`,
+    B `a
+
+b`,
+    repeat B bs `a
+
+b`,
 }")).
-Eval vm_compute in ("<<<M321>>>" ++ check (runes_of_ascii "MetaData As { } MetaData asx
-{
-    char[ 007 ] Logon
-`two words` , }
-")).
-Eval vm_compute in ("<<<M3739>>>" ++ check (runes_of_ascii "  packet
-A
-    {
-    B
-{ match
-
-k
-as
-	n {
-1
-:
-	C
-    }
-	,
-    }
-
-, }")).
-Eval vm_compute in ("<<<M2197>>>" ++ check (runes_of_ascii "# root
-    // `tick` ""quote"" 'q'
-    packet As { trueish Packet , }
-")).
-Eval vm_compute in ("<<<M1018>>>" ++ check (runes_of_ascii "// @lengthOf(
-MetaData chars { Header BodyLength , char[] int ,
-}
-")).
-Eval vm_compute in ("<<<M2181>>>" ++ check (runes_of_ascii "root
-    // `tick` ""quote"" 'q'
-    packet As { trueish Packet  }
-")).
-Eval vm_compute in ("<<<M3838>>>" ++ check (runes_of_ascii "MetaData
-
-    trueish
-{char[]  chars,
-    char[]
-	int
-	,
-}
-")).
-Eval vm_compute in ("<<<M1227>>>" ++ check (runes_of_ascii "
-MetaData metadata { uint8 metadata
-`a\` ,
-    char len	, }")).
-Eval vm_compute in ("<<<M676>>>" ++ check (runes_of_ascii "//x
-packet zchar { @calculatedFrom(
-""CRC32"") lengthOf , }")).
-Eval vm_compute in ("<<<M3182>>>" ++ check (runes_of_ascii "packet A {
+Eval vm_compute in ("<<<M938>>>" ++ check (runes_of_ascii "MetaData M {
+    u8 x `a
+    b
+  c`,
+    T t `a
+    b
+  c`,
+}")).
+Eval vm_compute in ("<<<M1096>>>" ++ check (runes_of_ascii "packet A {
     match k as n {
         1 : B,// c
     },
 }")).
-Eval vm_compute in ("<<<M1917>>>" ++ check (runes_of_ascii "
-packet	As { @calculatedFrom(//x
-)	""{,}""lengthOf , } 	 ")).
-Eval vm_compute in ("<<<M2000>>>" ++ check (runes_of_ascii "root
-packet crc
-    { f32a @calculatedFrom( """ ++ [233]%N ++ runes_of_ascii "t" ++ [233]%N ++ runes_of_ascii """ )")).
-Eval vm_compute in ("<<<M2411>>>" ++ check (runes_of_ascii "\ MetaData A
-{
-i64
-chars	, } // `tick` ""quote"" 'q'")).
-Eval vm_compute in ("<<<M150>>>" ++ check (runes_of_ascii "options {float
-    = 4294967296 ;} options
-{ }
-")).
-Eval vm_compute in ("<<<M2102>>>" ++ check (runes_of_ascii "MetaData MetaData x
-{// " ++ [128512]%N ++ runes_of_ascii " emoji
-i16 stringy , }")).
-Eval vm_compute in ("<<<M4017>>>" ++ check (runes_of_ascii "options {
-}
-
-options {
-}// `tick` ""quote"" " ++ [65279]%N ++ runes_of_ascii "'q'")).
-Eval vm_compute in ("<<<M1990>>>" ++ check (runes_of_ascii "root
-packet crc
-    { f32a @calculatedFrom(")).
-Eval vm_compute in ("<<<M397>>>" ++ check (runes_of_ascii "
-options { string_
-=
-    zchar[ 007
-] ; }")).
-Eval vm_compute in ("<<<M3189>>>" ++ check (runes_of_ascii "
-// c
-MetaData zchar { zchar[ 3 ] Pad , }")).
-Eval vm_compute in ("<<<M3188>>>" ++ check (runes_of_ascii "// c
-MetaData zchar { zchar[ 3 ] Pad , }")).
-Eval vm_compute in ("<<<M2142>>>" ++ check (runes_of_ascii "MetaData x
-{// " ++ [128512]%N ++ runes_of_ascii " emoji
-i16 @stringy , }")).
-Eval vm_compute in ("<<<M2779>>>" ++ check (runes_of_ascii "PCH{:;a*+BX,D;fDx(|3g)Qf5i123k>6$5!tGz")).
-Eval vm_compute in ("<<<M2104>>>" ++ check (runes_of_ascii "uint64 x
-{// " ++ [128512]%N ++ runes_of_ascii " emoji
-i16 stringy , }")).
-Eval vm_compute in ("<<<M2029>>>" ++ check (runes_of_ascii "root
-packet crc
-    { f32a @calcu")).
-Eval vm_compute in ("<<<M4166>>>" ++ check (runes_of_ascii "
-root	packet
-
-    o
-    {  }
-")).
-Eval vm_compute in ("<<<M3019>>>" ++ check (runes_of_ascii "root packet A {
-    u8 x `
-`,
-}")).
-Eval vm_compute in ("<<<M3098>>>" ++ check (runes_of_ascii "packet A {
- u8 x `d" ++ [8232]%N ++ runes_of_ascii "`, // c" ++ [8232]%N ++ runes_of_ascii "
-}")).
-Eval vm_compute in ("<<<M462>>>" ++ check (runes_of_ascii "packet
-    // " ++ [27880; 37322]%N ++ runes_of_ascii "
-    tag
-{}
-")).
-Eval vm_compute in ("<<<M2621>>>" ++ check (runes_of_ascii "packet A { @leftPad u8 x, }")).
-Eval vm_compute in ("<<<M2575>>>" ++ check (runes_of_ascii "packet A { u8 x `d` `e`, }")).
-Eval vm_compute in ("<<<M2782>>>" ++ check ([65533]%N ++ runes_of_ascii "`js" ++ [65533; 18; 65533; 65533; 0]%N ++ runes_of_ascii "}P" ++ [65533; 31; 1653]%N ++ runes_of_ascii "m" ++ [65533; 65533; 65533; 65533]%N ++ runes_of_ascii "E,T" ++ [65533]%N ++ runes_of_ascii "b" ++ [65533]%N)).
-Eval vm_compute in ("<<<M3269>>>" ++ check (runes_of_ascii "// c
-options { u8x = 3 }")).
-Eval vm_compute in ("<<<M2574>>>" ++ check (runes_of_ascii "packet A { x `d` `e`, }")).
-Eval vm_compute in ("<<<M2700>>>" ++ check (runes_of_ascii "K gGV$myFaQIVqDT=DBdbG")).
-Eval vm_compute in ("<<<M94>>>" ++ check (runes_of_ascii "  options //x
-{} 	 ")).
-Eval vm_compute in ("<<<M2593>>>" ++ check (runes_of_ascii "packet A { B { }, }")).
-Eval vm_compute in ("<<<M2656>>>" ++ check (runes_of_ascii "options { a = b; }")).
-Eval vm_compute in ("<<<M3116>>>" ++ check (runes_of_ascii "packet A {
-}
-// c" ++ [11]%N)).
-Eval vm_compute in ("<<<M2815>>>" ++ check (runes_of_ascii "^oT&]t,1C?E|)]Q{2")).
-Eval vm_compute in ("<<<M2793>>>" ++ check (runes_of_ascii ", ] = ""`tick`"" {")).
-Eval vm_compute in ("<<<M2727>>>" ++ check (runes_of_ascii "A" ++ [65533; 65533; 65533; 65533]%N ++ runes_of_ascii "}" ++ [65533; 8; 20; 65533; 65533; 65533]%N ++ runes_of_ascii "J")).
-Eval vm_compute in ("<<<M915>>>" ++ check (runes_of_ascii "options{ }
-")).
-Eval vm_compute in ("<<<M2750>>>" ++ check (runes_of_ascii "} } i64 ]")).
-Eval vm_compute in ("<<<M848>>>" ++ check (runes_of_ascii "
+Eval vm_compute in ("<<<M195>>>" ++ check (runes_of_ascii "root
+packet
+// packet A { u8 x, }
 //	t
+Z9_ {
+}
 ")).
-Eval vm_compute in ("<<<M2434>>>" ++ check (runes_of_ascii "zchar")).
-Eval vm_compute in ("<<<M3130>>>" ++ check (runes_of_ascii "// c" ++ [8203]%N)).
-Eval vm_compute in ("<<<M73>>>" ++ check (runes_of_ascii " 	 ")).
-Eval vm_compute in ("<<<M2677>>>" ++ check (runes_of_ascii "`d`")).
-Eval vm_compute in ("<<<M2492>>>" ++ check (runes_of_ascii "@")).
+Eval vm_compute in ("<<<M1121>>>" ++ check (runes_of_ascii "MetaData zchar { zchar[ 3 ] Pad , }
+// c
+")).
+Eval vm_compute in ("<<<M1066>>>" ++ check (runes_of_ascii "packet A {    u8 x, // c    u8 y,}")).
+Eval vm_compute in ("<<<M1576>>>" ++ check (runes_of_ascii "packet A {
+    u8 x `d x`,// c x
+}")).
+Eval vm_compute in ("<<<M268>>>" ++ check (runes_of_ascii "options { // " ++ [27880; 37322]%N ++ runes_of_ascii "
+T
+=int64  }
+")).
+Eval vm_compute in ("<<<M1765>>>" ++ check (runes_of_ascii "options
+{u8x
+
+= // c
+  3	} ")).
+Eval vm_compute in ("<<<M1186>>>" ++ check (runes_of_ascii "options
+// c
+{ u8x = 3 }")).
+Eval vm_compute in ("<<<M1068>>>" ++ check (runes_of_ascii "// a// bpacket A {}")).
+Eval vm_compute in ("<<<M995>>>" ++ check (runes_of_ascii "packet A {
+}
+// c" ++ [5760]%N)).
+Eval vm_compute in ("<<<M759>>>" ++ check (runes_of_ascii "root 007 ; repeat")).
+Eval vm_compute in ("<<<M748>>>" ++ check ([28; 65533; 65533]%N ++ runes_of_ascii "`" ++ [65533; 65533; 65533; 65533; 31; 65533]%N ++ runes_of_ascii "1" ++ [65533; 65533]%N)).
+Eval vm_compute in ("<<<M994>>>" ++ check (runes_of_ascii "// c" ++ [5760]%N)).
